@@ -165,7 +165,9 @@ impl OutputFormat for TundraDraw {
         result.ice_mode = IceMode::Ice;
 
         let mut pos = Position::default();
+        // the writer starts from black on black; the palette built here holds only black (index 0) so far
         let mut attr = TextAttribute::default();
+        attr.set_foreground(0);
 
         while o < data.len() {
             let mut cmd = data[o];
